@@ -259,6 +259,7 @@ func c17bBody(env *simrt.Env) {
 	for i := 0; i < nops && time.Now().Before(deadline); i++ {
 		var err error
 		what := ""
+		minPause := time.Duration(0)
 		if env.Faulted() && simrt.Chance(1, 3) {
 			cls := []string{"writeLoop", "coreLoop"}[simrt.Draw(2)]
 			simrt.Stall(cls, 20+simrt.Draw(200))
@@ -305,6 +306,9 @@ func c17bBody(env *simrt.Env) {
 				var text string
 				err = sc.ReadComment(&zero, &text)
 				what = "WriteComment + ReadComment"
+				// (ReadComment runs on the RPC thread, not in the core loop: let the core loop handle a block or
+				// two before this client synchronises with it again through its next request)
+				minPause = 120 * time.Millisecond
 			}
 		case 7:
 			a, b := simrt.Draw(nchan), simrt.Draw(nchan)
@@ -383,6 +387,9 @@ func c17bBody(env *simrt.Env) {
 		}
 		// let data flow between requests (and let flush / heartbeat / save timers fire sometimes)
 		d := []time.Duration{2 * time.Millisecond, 20 * time.Millisecond, 300 * time.Millisecond, 1500 * time.Millisecond}[simrt.Draw(4)]
+		if d < minPause {
+			d = minPause
+		}
 		time.Sleep(d)
 		if what != "" && what != "sleep" {
 			es := ""
